@@ -38,7 +38,7 @@ def run(ctx):
     acts = {"enable", "disable", "grant", "revoke", "restart", "update"}
     total_paths = 0
     for base, fill in (("MC_Roles", (0, 0)), ("MC_Roles_cap", (30, 62))):
-        cfg = mc_cfg(ctx, base, depth)
+        cfg = mc_cfg(ctx, base, depth if (ctx.quick or base == "MC_Roles") else depth - 1)
         try:
             r = ctx.model_check("MC_Roles", cfg=cfg, workers=8, timeout=1700)
         finally:
@@ -61,7 +61,7 @@ def run(ctx):
         ctx.cov["samples"] += [ev[min(len(ev) - 1, 7)]]
         if base == "MC_Roles_cap" and not any(e["err"] == "ExceedMaxLengthLimit" for e in ev):
             raise vlib.ToolError("vacuity: the capacity limits were never hit in the capacity configuration")
-        for f in fails:
+        for f in fails[:100]:      # the first failures are enough to decide and to replay
             ctx.report(classify(ev[f["i"] - 1], f["mon"]),
                        {"driver": "h-programs c18 replay --fill-roles %d --fill-members %d" % fill, "events": prefix_of(ev, f["i"])})
     # random linear histories at the real capacities (32 roles / 64 members), 40 role names x 70 addresses
@@ -79,7 +79,7 @@ def run(ctx):
     ctx.cov["samples"] += [ev[len(ev) // 2]]
     ctx.cov["max_roles_seen"] = max(e["obs"]["nroles"] for e in ev)
     ctx.cov["max_members_seen"] = max(e["obs"]["nmembers"] for e in ev)
-    for f in fails:
+    for f in fails[:100]:      # the first failures are enough to decide and to replay
         ctx.report(classify(ev[f["i"] - 1], f["mon"]), {"driver": "h-programs c18 random", "events": prefix_of(ev, f["i"])[-12:]})
     ctx.assumptions += ["the Store is driven in memory (zeroed struct + Store::init); the instruction wrappers are covered by C19",
                         "in the capacity configuration 30 filler roles and 62 filler members pre-occupy the real maps so that the "
